@@ -150,6 +150,14 @@ fn put(ts: *mut libc::timespec, ns: i128) {
     }
 }
 
+/// The real wall clock in seconds (raw system call).
+pub fn raw_real_s() -> f64 {
+    let mut ts = libc::timespec { tv_sec: 0, tv_nsec: 0 };
+    // SAFETY: plain system call with a valid pointer
+    unsafe { libc::syscall(libc::SYS_clock_gettime, libc::CLOCK_REALTIME, &mut ts as *mut libc::timespec) };
+    ts.tv_sec as f64 + ts.tv_nsec as f64 / 1e9
+}
+
 /// The real clock, for the harness's own wall-time measurements.
 pub fn raw_now_s() -> f64 {
     let mut ts = libc::timespec { tv_sec: 0, tv_nsec: 0 };
